@@ -41,6 +41,10 @@ def cancel_cases(draw):
         "schedule": draw(gen.schedules()),
         "complete": draw(st.sampled_from([True, True, False])),
         "later": draw(st.lists(st.sampled_from(["try", "show"]), max_size=3)),
+        # moments (before the cancel) at which the scheduler shows a queued/running batch in a non-terminal state outside
+        # JADE's table: the batch is alive and has to be canceled like any other
+        "exotic": draw(st.lists(st.fixed_dictionaries({"at": st.integers(5, 150), "steps": st.integers(10, 120),
+                                                       "which": st.integers(0, 7)}), max_size=2)),
         "cancel_after": draw(st.integers(0, 120)),  # world steps after the submission was created
     }
 
@@ -57,7 +61,7 @@ def _cmd(sim, kind):
 
 def run_case(case):
     scn = case["scn"]
-    with H.Sim(scn, schedule=case["schedule"], snapshots=True) as sim:
+    with H.Sim(scn, schedule=case["schedule"], snapshots=True, exotic=case.get("exotic", ())) as sim:
         w = sim.w
         state = {"canceled_cmd": False}
 
